@@ -130,6 +130,37 @@ def conformant_rdata(rep):
     return ev
 
 
+def txt_splits(rep):
+    """TXT values whose text is split into character-strings in other ways than the canonical 255-octet chunks"""
+    from cryptoparser.dnsrec.record import DnsRecordTxt
+    ev = []
+    texts = [b'v=spf1 include:_spf.example.com ~all', b'a' * 255 + b'b' * 45, b'k=rsa; p=' + b'Q' * 400, b'x', b'']
+    for text in texts:
+        n = len(text)
+        plans = [[n] if n <= 255 else None, [1, n - 1] if 1 <= n <= 256 else None, [n // 2, n - n // 2] if n <= 510 else None,
+                 [0, n] if n <= 255 else None, [n, 0] if n <= 255 else None,
+                 [100] * (n // 100) + ([n % 100] if n % 100 else []) if n else None,
+                 [200, 200, n - 400] if n > 400 else None]
+        for lens in plans:
+            if not lens or sum(lens) != n or any(x > 255 or x < 0 for x in lens):
+                continue
+            wire, pos = b'', 0
+            for x in lens:
+                wire += bytes([x]) + text[pos:pos + x]
+                pos += x
+            o, res, _ = call(DnsRecordTxt.parse_exact_size, wire)
+            back = False
+            if o == 'ok':
+                try:
+                    back = wire_dns.message_abs(res)[1]['text'] == list(text)
+                except Exception:  # pylint: disable=broad-except
+                    back = False
+            ev.append({'ev': 'alt', 'kind': 'txt', 'abs': {'text': list(text)}, 'lens': lens, 'wire': list(wire), 'out': o, 'back_same': back,
+                       'cls': 'DnsRecordTxt', 'origin': 'split:' + '+'.join(str(x) for x in lens)})
+            rep.case('txtsplit|' + wire.hex())
+    return ev
+
+
 def run(rep):
     thorough = rep.tier == 'thorough'
     res = tlc.require_ok(tlc.run('MC_DnsWire', workers=1, timeout=300), 'MC_DnsWire')
@@ -148,6 +179,7 @@ def run(rep):
     for o in generated(rep, thorough):
         events += event_for(o, 'generated')
     events += conformant_rdata(rep)
+    events += txt_splits(rep)
     for e in events:
         rep.case(digest(e.get('wire') or e.get('rdata')))
     kinds = {}
